@@ -137,6 +137,9 @@ func init() {
 	add(word("'q\né'", wSQ("q\né")))
 	add(word("\"d\né\"", wDQ(wLit("d\né"))))
 	add(word("'é\nq'b", wSQ("é\nq"), wLit("b")))
+	add(word("a\\\nb", wLit("a"), wLit("b"))) // line continuation inside a word
+	add(word("$(b\nc)", wCS(true, simpleCmd("b"), simpleCmd("c"))))
+	add(sym{text: "((1 +\n2))", kind: kArith, parts: func() ast.Word { return ast.Word{wLit("1"), wLit("+"), wLit("2")} }})
 	add(word("x=$v", wLit("x="), wPE("v")))
 	add(word("x='q'", wLit("x="), wSQ("q")))
 	for _, o := range []string{";", "&", "|", "&&", "||", ";;", "(", ")", "<", ">", ">>", ">|", "<&", ">&", "<>"} {
